@@ -71,7 +71,9 @@ impl Authority {
 		let uri: Uri = value.parse().map_err(AuthorityError::InvalidUri)?;
 		let authority = uri.authority().ok_or(AuthorityError::MissingHost)?;
 		let host = authority.host();
-		let maybe_port = &authority.as_str()[host.len()..];
+		// The host starts right after the userinfo (`user:password@`), if there is one.
+		let host_start = authority.as_str().rfind('@').map_or(0, |i| i + 1);
+		let maybe_port = &authority.as_str()[host_start + host.len()..];
 
 		// After the host segment, the authority may contain a port such as `fooo:33`, `foo:*` or `foo`
 		let port = match maybe_port.split_once(':') {
